@@ -1647,6 +1647,56 @@ func stripAsserts(s *Sym) *Sym {
 	return rec(s, false)
 }
 
+// typeSwitchNorm drops, from a conjunction that contains a successful comma-ok assertion x.(*T), the failed assertions of
+// the same x to other pointer types: a value has one dynamic type, so they are implied. This is what a type switch
+// compiles to (case k holds and cases 1..k-1 do not); the tables then state "x is a *T" and nothing about case order.
+func typeSwitchNorm(s *Sym) *Sym {
+	okAssert := func(x *Sym) (typ, operand string, ok bool) {
+		if x != nil && x.Op == "call" && x.Name == "extract1" && len(x.Kids) == 1 {
+			k := x.Kids[0]
+			if k != nil && k.Op == "call" && strings.HasPrefix(k.Name, "assert:*") && len(k.Kids) == 1 {
+				return strings.TrimPrefix(k.Name, "assert:"), k.Kids[0].String(), true
+			}
+		}
+		return "", "", false
+	}
+	var rec func(x *Sym) *Sym
+	rec = func(x *Sym) *Sym {
+		if x == nil || len(x.Kids) == 0 {
+			return x
+		}
+		if x.Op == "bin" && x.Name == "&&" {
+			var cs []*Sym
+			conjuncts(x, &cs)
+			pos := map[string]string{}
+			for i := range cs {
+				cs[i] = rec(cs[i])
+				if t, o, ok := okAssert(cs[i]); ok {
+					pos[o] = t
+				}
+			}
+			out := sBool(true)
+			for _, cj := range cs {
+				if cj.Op == "not" && len(cj.Kids) == 1 {
+					if t, o, ok := okAssert(cj.Kids[0]); ok && pos[o] != "" && pos[o] != t {
+						continue
+					}
+				}
+				out = sAnd(out, cj)
+			}
+			return out
+		}
+		n := *x
+		n.str = ""
+		n.Kids = make([]*Sym, len(x.Kids))
+		for i, k := range x.Kids {
+			n.Kids[i] = rec(k)
+		}
+		return &n
+	}
+	return rec(s)
+}
+
 // resolveAnyCalls replaces every anycall(name) of the table term by the unique call of that function in the code term.
 func resolveAnyCalls(want, got *Sym) (*Sym, error) {
 	names := map[string]bool{}
